@@ -466,7 +466,7 @@ def gen_cases(ctx):
     ctx.count('corpus', len(cases))
     cases += layout_cases()
     ctx.count('layout_grid_cases', len(cases) - ctx.dist['corpus'])
-    nrand = 400 if quick else 10000
+    nrand = 350 if quick else 9000
     mmax = 40 if quick else 120
     for _ in range(nrand):
         m = rng.choice([1, 2, 3, 4, 5, 6, 8]) if rng.random() < 0.5 else rng.randint(1, mmax)
